@@ -295,6 +295,45 @@ def inline_bytes_idiom(body):
     return True
 
 
+def hx7(F, R):
+    """tail(skip) is the byte slice bytes()[skip..] — including its panic when skip > len: every value it returns is built from that
+    slice, or is the empty value exactly where skip == len"""
+    b = F.fn("Hex", "tail")
+    if b is None:
+        R.missing("HX7", "Hex::tail")
+        return
+    R.analysed(b)
+    n = 0
+    for d in b.defs().get(0, []):
+        site = (d[0], d[1])
+        try:
+            v = strip_load(b.expr_rvalue(d[3], site) if d[2] == "assign" else b.expr_call(d[3], site))
+        except Exception:
+            continue
+        n += 1
+        from_slice = mentions(v, lambda x: (x[0] == "slice" or (x[0] == "call" and x[1].split("::")[-1] in ("index", "get"))) and
+                              mentions(x, lambda y: y[0] == "call" and y[1].split("::")[-1] == "bytes" and "Hex" in y[1]) and
+                              mentions(x, lambda y: y == ("param", 2)))
+        unchecked = mentions(v, lambda x: x[0] == "call" and x[1].split("::")[-1] in ("get", "unwrap_or", "unwrap_or_default", "saturating_sub", "min"))
+        if from_slice and not unchecked:
+            R.ok("HX7", b.where(site), "tail(skip) = from the slice bytes()[skip..]")
+            continue
+        is_empty = v[0] == "call" and v[1].split("::")[-1] == "empty" and "Hex" in v[1]
+        at_end = False
+        for f in b.facts_at(site):
+            if f[0] == "cmp" and f[1] == "==":
+                sides = [strip_load(f[2]), strip_load(f[3])]
+                if any(x == ("param", 2) for x in sides) and any(x[0] == "call" and x[1].split("::")[-1] == "len" for x in sides):
+                    at_end = True
+        if is_empty and at_end:
+            R.ok("HX7", b.where(site), "tail(len) = the empty value")
+        else:
+            R.bad("HX7", "HX7/Hex::tail/not-the-slice-from-skip", b.where(site),
+                  "tail(skip) returns something that is not built from bytes()[skip..] (%s): it does not panic / answer as the byte slice "
+                  "does (e.g. skip > len gives an empty value instead of a panic)" % show(v, b)[:100])
+    R.floor("HX7", "results of tail()", n, 1, b.where())
+
+
 def hx2(F, R):
     n = 0
     for name, trait in ENCAPSULATED:
